@@ -32,6 +32,13 @@ pub struct Plan {
     /// segment is empty
     #[serde(default)]
     pub second_first: bool,
+    /// > 0: the "ring" family instead: a producer chain with this small genesis period (block ring of
+    /// 2 x gp slots), delivered to a fresh node so that block K arrives before K-1, then an invalid child
+    /// of K; K is chosen on or next to a multiple of the ring size
+    #[serde(default)]
+    pub ring_gp: u64,
+    #[serde(default)]
+    pub ring_k: u64,
 }
 
 #[derive(Clone, Debug, PartialEq, Eq)]
@@ -89,6 +96,17 @@ fn gen(seed: u64, tier: Tier) -> Plan {
     let mut p = gen_base(seed, tier);
     // one run in six: the candidate sits directly on the tip and its second block arrives first
     let mut rng = Rng::new(mix(seed, 0x5ec0));
+    if rng.chance(1, 12) {
+        p.ring_gp = rng.range(3, 6);
+        let ring = 2 * p.ring_gp;
+        p.ring_k = match rng.below(3) {
+            0 => ring,
+            1 => ring + 1,
+            _ => rng.range(4, ring + 2),
+        };
+        p.disk_fault_nth = None;
+        return p;
+    }
     if rng.chance(1, 6) {
         p.main_len = 0;
         p.cand_len = 3 + rng.below(3) as usize;
@@ -126,6 +144,8 @@ fn gen_base(seed: u64, tier: Tier) -> Plan {
         disk_fault_nth,
         extra_after: rng.below(3) as usize,
         second_first: false,
+        ring_gp: 0,
+        ring_k: 0,
     }
 }
 
@@ -136,7 +156,7 @@ impl Scenario for C04 {
     fn meta(&self) -> Meta {
         Meta {
             level: "exploration",
-            rule: "run = shared prefix + main chain (0..M blocks) + candidate chain (1..F blocks, longer than main) whose block at bad_pos carries one of 11 header/transaction edits that only validation notices (re-signed, so decodable and self-consistent) or, in a quarter of the runs, a transaction whose input is not spendable on that branch (already spent by an ancestor, or never existed); candidate blocks are delivered in order, so the ones not longer than main are stored unvalidated and the first longer one triggers the reorganisation attempt (when the candidate sits directly on the tip, in a sixth of all runs (candidate of 3-5 blocks on the tip) its second block is delivered before its first, so that a multi-block candidate with an empty old segment is wound); optional disk read fault on the n-th block-file read of that call; prune depth 1..8 so that unwinding needs Pruned->Full upgrades. Oracle: full snapshot {tip, spendable set, index for all ids, stored blocks + on-chain flags, wallet slips/unspent/balance} before == after every call that does not return BlockAddedSuccessfully; step budget 8*(|new|+|old|)+16 on the wind/unwind loop; afterwards the node must still extend its chain. distinct_nontrivial = distinct (|main|, |cand|, bad_pos, kind, disk fault, prune depth) whose triggering call entered validation and was rejected.",
+            rule: "run = shared prefix + main chain (0..M blocks) + candidate chain (1..F blocks, longer than main) whose block at bad_pos carries one of 11 header/transaction edits that only validation notices (re-signed, so decodable and self-consistent) or, in a quarter of the runs, a transaction whose input is not spendable on that branch (already spent by an ancestor, or never existed); candidate blocks are delivered in order, so the ones not longer than main are stored unvalidated and the first longer one triggers the reorganisation attempt (when the candidate sits directly on the tip, in a sixth of all runs (candidate of 3-5 blocks on the tip) its second block is delivered before its first, so that a multi-block candidate with an empty old segment is wound); optional disk read fault on the n-th block-file read of that call; prune depth 1..8 so that unwinding needs Pruned->Full upgrades. A twelfth of the runs is the ring family: a producer chain with genesis period 3..6 (block ring of 2 x gp slots) is given to a fresh node up to K-2, then block K before K-1, then an invalid child of K, with K on / next to a multiple of the ring size. Oracle: full snapshot {tip, spendable set, index for all ids, stored blocks + on-chain flags, wallet slips/unspent/balance} before == after every call that does not return BlockAddedSuccessfully; step budget 8*(|new|+|old|)+16 on the wind/unwind loop; afterwards the node must still extend its chain. distinct_nontrivial = distinct (|main|, |cand|, bad_pos, kind, disk fault, prune depth) whose triggering call entered validation and was rejected.",
             real: &["Blockchain::add_block/validate/wind_chain/unwind_chain/add_block_failure", "Block::validate/upgrade_block_to_block_type", "BlockRing", "Wallet::on_chain_reorganization", "Storage"],
             stubs: &["SimIo (in-memory disk with read faults)", "SimConfig", "vendored ahash"],
             assumptions: &["transaction-level invalidity is C01's (Block::validate verdict on transactions)", "genesis period >> chain length", "block cache type (Pruned/Full) is not part of the compared state"],
@@ -153,6 +173,9 @@ impl Scenario for C04 {
     }
     fn execute(&self, plan: &Value) -> RunResult {
         let plan: Plan = serde_json::from_value(plan.clone()).expect("plan");
+        if plan.ring_gp > 0 {
+            return ring_family(&plan);
+        }
         let mut r = RunResult::default();
         let mut w = World::new(plan.seed, Params::default());
         let creator = w.keys[0].clone();
@@ -443,4 +466,139 @@ impl Scenario for C04 {
         }
         out.into_iter().map(|p| serde_json::to_value(p).unwrap()).collect()
     }
+}
+
+/// block ring wrap-around: see Plan::ring_gp
+fn ring_family(plan: &Plan) -> RunResult {
+    let mut r = RunResult::default();
+    let params = Params { genesis_period: plan.ring_gp, heartbeat: 1000, n_users: 3, slips_per_user: 4, base_amount: 1_000_000 };
+    let mut rng = Rng::new(mix(plan.seed, 0x416e));
+    let mut c = match crate::util::guarded(|| Chain::new(plan.seed, params.clone(), 8)) {
+        Ok(Ok(c)) => c,
+        _ => {
+            r.discarded = true;
+            return r;
+        }
+    };
+    let k = plan.ring_k.max(4);
+    // producer chain with ids 1..=k+1
+    while c.tip_rec().id < k + 1 {
+        let mut txs = vec![];
+        let user = 1 + rng.usize_below(3);
+        if let Some((t, _)) = c.payment(user, 1 + rng.usize_below(3), rng.usize_below(64), 0, 0, &[]) {
+            txs.push(t);
+        } else {
+            let tag = c.tag();
+            let ts = c.tip_rec().ts + tag;
+            txs.push(make_tx(&c.keys[1].clone(), &[], &[(c.keys[1].pk, 0)], ts, &tag.to_le_bytes()));
+        }
+        let tip_hash = c.tip_rec().hash;
+        let want = (c.tip_rec().id + 1) % 2 == 0;
+        let gt = want || !c.node.bc.is_golden_ticket_count_valid(tip_hash, want, false, false);
+        match crate::util::guarded(|| c.extend(txs, gt, 2300)) {
+            Ok(Ok(_)) => {}
+            _ => {
+                // the producer refused its own block (C07's subject): nothing to offer here
+                r.discarded = true;
+                r.probe("ring_producer_refused");
+                return r;
+            }
+        }
+    }
+    let rec_of = |id: u64| c.recs[(id - 1) as usize].clone();
+    let max_id = k + 2;
+    let mut n = Node::new(&c.cfg, &c.keys[2].clone());
+    let mut trace = Digest::new();
+    for id in 1..=k - 2 {
+        let _ = n.add_block_bytes(&rec_of(id).bytes);
+    }
+    if n.tip().0 != k - 2 {
+        r.discarded = true;
+        r.probe("ring_history_not_adopted");
+        return r;
+    }
+    // K before its parent, then the parent
+    let _ = crate::util::guarded(|| n.add_block_bytes(&rec_of(k).bytes));
+    let _ = crate::util::guarded(|| n.add_block_bytes(&rec_of(k - 1).bytes));
+    r.fault("block_delivered_before_parent_then_parent", 1);
+    let tip_before = n.tip();
+    if tip_before.0 != k - 1 && tip_before.0 != k {
+        // the out-of-order pair itself went wrong: orphan class (C03/C05), not this family's subject
+        r.probe("ring_stage_not_reached");
+        return r;
+    }
+    // an invalid child of K
+    let good = {
+        let mut b = saito_core::core::consensus::block::Block::deserialize_from_net(&rec_of(k + 1).bytes).expect("own block decodes");
+        b.generate().expect("generates");
+        b
+    };
+    let bad = match tamper_block(&good, "burnfee", &c.keys[0].clone()) {
+        Some(b) => b,
+        None => {
+            r.discarded = true;
+            return r;
+        }
+    };
+    let bad_bytes = bad.serialize_for_net(saito_core::core::consensus::block::BlockType::Full);
+    let before = snapshot(&n, max_id);
+    saito_core::core::util::verif::set_step_budget(8 * (2 * (max_id + 2)) + 16);
+    let res = crate::util::guarded(|| n.add_block_bytes(&bad_bytes));
+    saito_core::core::util::verif::set_step_budget(u64::MAX);
+    match res {
+        Err(p) => {
+            if p.step_budget {
+                r.violate(format!("C04|does-not-return|{}", p.site()), "add_block exceeded its step budget (ring family)".to_string());
+            } else {
+                r.violate(format!("C04|panic|{}", p.site()), format!("{} ({}:{})", p.msg, p.file, p.line));
+            }
+            return r;
+        }
+        Ok(x) => {
+            let oc = x.as_ref().map(outcome_of).unwrap_or(AddOutcome::Invalid);
+            trace.str(&format!("{:?}", oc));
+            r.steps += 1;
+            if !matches!(oc, AddOutcome::Added { .. }) {
+                let after = snapshot(&n, max_id);
+                if let Some(what) = snap_diff(&before, &after) {
+                    if std::env::var("VERIF_DEBUG").is_ok() {
+                        eprintln!("index before {:?}", before.index.iter().map(|x| x.map(|h| crate::util::hex8(&h))).collect::<Vec<_>>());
+                        eprintln!("index after  {:?}", after.index.iter().map(|x| x.map(|h| crate::util::hex8(&h))).collect::<Vec<_>>());
+                    }
+                    // one specific, known trace: the ring slot of the wound-then-unwound candidate block used to
+                    // hold the block 2 x genesis_period below it; that entry is not put back
+                    let ring = 2 * plan.ring_gp;
+                    let only_displaced = what == "index"
+                        && before.index.iter().zip(after.index.iter()).enumerate().all(|(i, (b, a))| {
+                            let id = i as u64 + 1;
+                            b == a || (b.is_some() && a.is_none() && (id + ring == k || id + ring == k + 1))
+                        });
+                    if only_displaced {
+                        r.violate(
+                            "C04|trace-left|index|ring-slot-of-displaced-block",
+                            format!("ring family (genesis period {}, K = {}): after the rejected candidate the longest-chain index entry of the block {} below it is gone (tip unchanged at {})", plan.ring_gp, k, ring, before.tip.0),
+                        );
+                        return r;
+                    }
+                    r.violate(
+                        format!("C04|trace-left|{}", what),
+                        format!("ring family (genesis period {}, K = {}): the invalid child of block {} was not accepted ({:?}) but {} changed; tip before {:?} after {:?}", plan.ring_gp, k, k, oc, what, before.tip.0, after.tip.0),
+                    );
+                    return r;
+                }
+                r.probe("ring_rejection_left_no_trace");
+                let mut d = Digest::new();
+                d.u64(plan.ring_gp).u64(k).u64(0xabcd);
+                r.nontrivial.push(d.get());
+            }
+        }
+    }
+    // liveness: the honest child of K is adopted
+    let oc = n.add_block_bytes(&rec_of(k + 1).bytes).as_ref().map(outcome_of);
+    if oc != Some(AddOutcome::Added { longest: true }) || n.tip().0 != k + 1 {
+        r.violate("C04|liveness|cannot-extend-after-rejection", format!("ring family (genesis period {}, K = {}): after the rejection the honest block {} is not adopted ({:?}, tip {})", plan.ring_gp, k, k + 1, oc, n.tip().0));
+    }
+    r.state_hash = trace.get();
+    r.trace_hash = trace.get();
+    r
 }
